@@ -387,6 +387,9 @@ def parser_modules(F: Facts) -> Tuple[Module, Module, Dict[str, Any]]:
                 if 'module' not in kw:
                     raise AnalysisError('%s: %s called without module=' % (q, norm(n.func)))
                 mr = F.resolve_expr(fi.module, kw['module'])
+                if mr[0] != 'pkgmod' and isinstance(kw['module'], ast.Name):
+                    mr = _module_behind_parameter(F, fi.module, n, kw['module'].id) or mr
+                    info['injectable'] = True       # the stock module is a default that a caller may replace
                 if mr[0] != 'pkgmod' or mr[1] not in F.modules:
                     raise AnalysisError('%s: module=%s does not resolve to a package module' % (q, norm(kw['module'])))
                 if r[1].endswith('yacc.yacc'):
@@ -398,6 +401,52 @@ def parser_modules(F: Facts) -> Tuple[Module, Module, Dict[str, Any]]:
     if rules_m is None or lex_m is None:
         raise AnalysisError('anchor vanished: SqParser.__init__ does not build its lexer/parser with ply lex.lex/yacc.yacc')
     return rules_m, lex_m, info
+
+
+def _module_behind_parameter(F: Facts, m: Module, call: ast.Call, pname: str, _depth: int = 0):
+    """`module=<parameter>`: the value the parameter has by default - its own default, or the default of the parameter that
+    the callers in this module pass for it (lexer_module=lexer on the constructor, handed to a build helper)."""
+    if _depth > 3:
+        return None
+    encl = None
+    for fn in ast.walk(m.tree):
+        if isinstance(fn, (ast.FunctionDef, ast.AsyncFunctionDef)) and any(x is call for x in ast.walk(fn)):
+            if encl is None or any(x is fn for x in ast.walk(encl)):
+                encl = fn           # innermost enclosing def
+    if encl is None:
+        return None
+    a = encl.args
+    names = [x.arg for x in a.args]
+    defaults = dict(zip(names[len(names) - len(a.defaults):], a.defaults))
+    defaults.update({x.arg: d for x, d in zip(a.kwonlyargs, a.kw_defaults) if d is not None})
+    if pname not in names + [x.arg for x in a.kwonlyargs]:
+        return None
+    if pname in defaults:
+        r = F.resolve_expr(m, defaults[pname])
+        return r if r[0] == 'pkgmod' else None
+    # no default here: look at what the callers of this function (in the same module) pass
+    pos = names.index(pname) if pname in names else None
+    for c in ast.walk(m.tree):
+        if isinstance(c, ast.Call) and ((isinstance(c.func, ast.Attribute) and c.func.attr == encl.name) or
+                                        (isinstance(c.func, ast.Name) and c.func.id == encl.name)):
+            arg = None
+            for k in c.keywords:
+                if k.arg == pname:
+                    arg = k.value
+            if arg is None and pos is not None:
+                off = 1 if names and names[0] in ('self', 'cls') and isinstance(c.func, ast.Attribute) else 0
+                if 0 <= pos - off < len(c.args):
+                    arg = c.args[pos - off]
+            if arg is None:
+                continue
+            r = F.resolve_expr(m, arg)
+            if r[0] == 'pkgmod':
+                return r
+            if isinstance(arg, ast.Name):
+                r2 = _module_behind_parameter(F, m, c, arg.id, _depth + 1)
+                if r2 is not None:
+                    return r2
+    return None
 
 
 def extract(F: Facts) -> Grammar:
